@@ -37,8 +37,13 @@ def _value_case(t):
     want = quote(value) if is_string else None
     got = v1.get(name)
     if is_string:
-        # fidelity is judged on the reloaded value below (the dump's quoting is the writer's business)
-        pass
+        # the value the file gave must be the value the dump shows (the writer escapes '"' and '\\')
+        raw = got or ''
+        unq = raw[1:-1] if raw.startswith('"') and raw.endswith('"') and len(raw) >= 2 else raw
+        unq = re.sub(r'\\(.)', r'\1', unq)
+        if unq != value:
+            probs.append(('string-not-loaded', '%s = %s is dumped as %s: the value given in the file is not the value loaded%s' % (
+                name, quote(value), raw, ('; stderr: ' + r1.stderr[:160].decode(errors='replace')) if r1.stderr.strip() else '')))
     else:
         exp = str(int(value)) if otype in ('unsigned', 'signed') else value.lower()
         if got != exp:
